@@ -142,6 +142,8 @@ def client_scenario(ctx, label, cfg, di, n, rng):
             if not segs:
                 break
             last = segs[-1]["h"]
+            if not last[1]:
+                break
             if not last[2]:          # more-follows clear: final ack
                 r = L.frame(0, {"t": 4, "srv": 1, "id": last[6], "seq": last[7], "win": win})
                 all_out += r["out"]
@@ -161,20 +163,19 @@ def client_scenario(ctx, label, cfg, di, n, rng):
     elif expect == "segmented":
         if any(not f["h"][1] for f in reqs):
             fail("segmentation", "unsegmented frame in a segmented request")
-        seqs = [f["h"][7] for f in reqs]
+        seqs = [f["h"][7] for f in reqs if f["h"][1]]
         total = len(set(seqs)) if count <= 256 else len(reqs)
         if total != count or reqs[-1]["h"][2]:
             fail("segment-count", "expected %d segments, saw %d distinct (last more-follows=%s)" % (
                 count, total, reqs[-1]["h"][2]))
         if peer_max and total > peer_max:
             fail("segments-bound", "%d segments toward a peer accepting %d" % (total, peer_max))
-        if reqs[0]["h"][8] != cfg["window"] or not (1 <= reqs[0]["h"][8] <= 127):
-            fail("window-range", "first segment proposes window %r (own %r)" % (reqs[0]["h"][8], cfg["window"]))
-        for f in reqs[1:]:
+        segd = [f for f in reqs if f["h"][1]]
+        if segd and (segd[0]["h"][8] != cfg["window"] or not (1 <= segd[0]["h"][8] <= 127)):
+            fail("window-range", "first segment proposes window %r (own %r)" % (segd[0]["h"][8], cfg["window"]))
+        for f in segd[1:]:
             if not (1 <= f["h"][8] <= 127):
                 fail("window-range", "segment carries window %r" % f["h"][8])
-        if b"".join([]) is None:
-            pass
     else:
         reason = expect[1]
         if reqs or len(confs) != 1 or confs[0]["h"][0] != 7 or confs[0]["h"][3] != reason \
@@ -230,6 +231,8 @@ def server_scenario(ctx, label, cfg, di, hdr, n, rng):
             if not segs:
                 break
             last = segs[-1]["h"]
+            if not last[1]:
+                break
             r = L.frame(0, {"t": 4, "srv": 0, "id": 7, "seq": last[4], "win": win})
             outs = r["out"]
             all_out += outs
@@ -248,15 +251,16 @@ def server_scenario(ctx, label, cfg, di, hdr, n, rng):
             fail("segmentation", "unsegmented frame in a segmented response")
         if not hdr["sa"]:
             fail("segmentation-allowed", "segmented response although the request did not accept one")
-        total = len(set(f["h"][4] for f in acks)) if count <= 256 else len(acks)
+        total = len(set(f["h"][4] for f in acks if f["h"][1])) if count <= 256 else len(acks)
         if total != count or acks[-1]["h"][2]:
             fail("segment-count", "expected %d segments, saw %d" % (count, total))
         if maxsegs is not None and total > maxsegs:
             fail("segments-bound", "%d segments, request accepts %d" % (total, maxsegs))
-        if acks[0]["h"][5] != cfg["window"] or not (1 <= acks[0]["h"][5] <= 127):
-            fail("window-range", "first segment proposes window %r (own %r)" % (acks[0]["h"][5], cfg["window"]))
-        for f in acks[1:]:
-            if not (1 <= f["h"][5] <= 127):
+        segd = [f for f in acks if f["h"][1]]
+        if segd and (segd[0]["h"][5] != cfg["window"] or not (1 <= segd[0]["h"][5] <= 127)):
+            fail("window-range", "first segment proposes window %r (own %r)" % (segd[0]["h"][5], cfg["window"]))
+        for f in segd[1:]:
+            if not (1 <= (f["h"][5] or 0) <= 127):
                 fail("window-range", "segment carries window %r" % f["h"][5])
     else:
         reason = expect[1]
